@@ -1,5 +1,5 @@
 """C11 - SigV2 (DESIGN.md section 3, C11)."""
-from .. import cmpnorm, flow, guards, paths
+from .. import cmpnorm, flow, guards, inline, paths
 from ..facts import callee_def, short
 from ..model import load_model
 from ..report import AnchorMissing
@@ -25,7 +25,7 @@ def rule_r1(chk, db):
          {"v2_check_header_auth", "v2_check_presigned_url"} <= {short(callee_def(t)) for _, t in x.calls()}]
     if len(d) != 1:
         raise AnchorMissing("v2 dispatcher: %d candidates" % len(d))
-    x = d[0]
+    x = inline.inlined(db, d[0])
     # presigned verifier under "Signature parameter present"; header verifier under "AuthorizationV2::parse succeeded" (any form of the tests)
     sig_edges = sigcore.presence_edges(db, x, ("qs", "Signature"))
     parse_edges = sigcore.presence_edges(db, x, ("parse-ok", "AuthorizationV2"))
